@@ -4,7 +4,7 @@
 //cfg: fn @ Bf::put
 //cfg: fn @ mid3
 //cfg: fn @ kk
-//grid: { let mut b = Bf::<6>::mk(); b.put({i}, {v}); b.d.to_vec() } ||| Bf_d (src_Bf_put (src_Bf_mk 6) {i} {v}) ||| i=0,1,2,3; v=258,65535
+//pgrid: { let mut b = Bf::<6>::mk(); b.put({i}, {v}); b.d.to_vec() } ||| option_map Bf_d (src_Bf_put (src_Bf_mk 6) {i} {v}) ||| i=0,1,2,3; v=258,65535
 //grid: mid3({v}).to_vec() ||| let '(a, b, c) := src_mid3 {v} in [a; b; c] ||| v=16909060,255
 //case: kk() ||| src_kk
 // `list[a..b].copy_from_slice(&array)` with computed bounds, `[lit; N]` for a const generic N, `array[a..b]` with literal
